@@ -115,6 +115,10 @@ def r2_sole_appender(ck, F):
                "last_key": {A("bw_insert"), A("bw_reset")},
                "index_offsets": {A("bw_insert"), A("bw_reset")},
                "index_key_counter": {A("bw_insert"), A("bw_reset")}}
+    from .lastkey import LastKeyRepr
+    _lk = LastKeyRepr(F)
+    if _lk.sibling:
+        allowed[_lk.flag] = allowed["last_key"]      # the presence flag of the last key lives and dies with it
     for fld, lst in sorted(mf.items()):
         who = {bb.path for bb, s, st in lst}
         extra = who - allowed.get(fld, set())
